@@ -289,7 +289,8 @@ def c14(tier):
     ck = Check('C14', tier)
     q = tier == 'quick'
     cfg = {'modes': [0], 'exh_cap': 150 if q else 400, 'exh_len': 5, 'n_rand': 40, 'n_mut': 80, 'long': (30, 200) if q else (100, 2000)}
-    merge(ck, run_pipeline('C14', tier, gen_grammars('C14', tier, 192 if q else 2500, 'values'), cfg, flavour='asan' if not q else 'clang'))
+    gs = gen_grammars('C14', tier, 160 if q else 2000, 'values') + gen_grammars('C14r', tier, 96 if q else 1000, 'recovery')
+    merge(ck, run_pipeline('C14', tier, gs, cfg, flavour='asan' if not q else 'clang'))
     ck.cov['rule'] = ('grammars with tracked value types (copyable and move-only), typed terms, default functors and error rules; every value gets a unique id in a registry; '
                       'after each parse (success, failure, recovery) the registry must balance: no object or payload alive, no library-made copy, no id consumed twice, '
                       'no moved-from argument; distinct_nontrivial = distinct (grammar,input) runs that created >= 2 values')
